@@ -293,6 +293,73 @@ def h_fault(kind):
     cover("fault")
 
 
+def h_again(bad, between):
+    """a multi-step history on ONE object: a first connect() succeeds; (optionally after close()/shutdown()) connect() is called again
+    and THAT handshake is refused.  The second call raises, the transport IT opened is closed, and the object cannot be used to
+    write to it (nothing of the earlier success counts for the new attempt)."""
+    quiet_logging()
+    import websocket
+    from websocket._exceptions import WebSocketException
+    import socket as _s
+
+    def ok(server, head, key):
+        return _response("HTTP/1.1 101 Switching Protocols", "websocket", "Upgrade", accept_for(key), None)
+
+    def refuse(server, head, key):
+        if bad == "403":
+            return b"HTTP/1.1 403 Forbidden\r\nContent-Length: 0\r\n\r\n"
+        if bad == "accept":
+            return _response("HTTP/1.1 101 Switching Protocols", "websocket", "Upgrade", accept_for("AAAAAAAAAAAAAAAAAAAAAA=="), None)
+        if bad == "upgrade":
+            return _response("HTTP/1.1 101 Switching Protocols", "h2c", "Upgrade", accept_for(key), None)
+        if bad == "eof":
+            server.k.after(0, lambda: server.deliver("EOF"))
+            return b"HTTP/1.1 101 Switching Proto"
+        return b"HTTP/1.1 302 Found\r\nLocation: ws://h.example/again\r\n\r\n"  # redirect_limit=0: too many redirects
+
+    k, net = _mk([{"respond": ok}, {"respond": refuse}, {"respond": refuse}])
+    raised, wrote = None, None
+    try:
+        ws = websocket.WebSocket()
+        ws.settimeout(5)
+        ws.connect("ws://h.example/x")
+        sx.require(ws.connected, "first connect succeeds")
+        if between == "close":
+            ws.close()
+        elif between == "shutdown":
+            ws.shutdown()
+        try:
+            ws.connect("ws://h.example/x", redirect_limit=0)
+        except (WebSocketException, _s.timeout, TimeoutError, ConnectionError) as e:
+            raised = e
+        except (sx.Control, sx.ConcreteFailure, sx.ReplayMismatch):
+            raise
+        except Exception as e:
+            sx.require(False, "second connect raised undocumented %s" % type(e).__name__, bad=bad, between=between)
+            return
+        second = net.socks[1] if len(net.socks) > 1 else None
+        before = len(net.client_frames)
+        sent_before = len(second.sent) if second is not None else 0
+        try:
+            ws.send("x")
+            wrote = "sent"
+        except (sx.Control, sx.ConcreteFailure, sx.ReplayMismatch):
+            raise
+        except Exception as e:
+            wrote = type(e).__name__
+        nframes = len(net.client_frames) - before
+        nbytes = (len(second.sent) - sent_before) if second is not None else 0
+    finally:
+        k.shutdown()
+        simnet.uninstall()
+    sx.require(raised is not None, "a refused handshake on a re-used object must raise (the earlier success does not count)", bad=bad, between=between)
+    sx.require(second is not None and second.closed, "the transport opened by the failed connect() is closed", bad=bad, between=between)
+    sx.require(ws.sock is not second or second is None, "the object does not keep the transport of the failed connect()", bad=bad, between=between)
+    sx.require(nframes == 0 and nbytes == 0,
+               "nothing can be sent over the transport of a refused handshake", bad=bad, between=between, wrote=wrote)
+    cover("again")
+
+
 def obligations(tier):
     thorough = tier == "thorough"
     val = []
@@ -337,6 +404,10 @@ def obligations(tier):
                    kernel=["_http.read_headers", "_handshake._get_resp_headers", "_validate", "WebSocket.connect"]),
         Obligation("H-redirect", h_redirect, red, bounds="redirect chains of length 0..4 against redirect_limit 0..3, ending in a valid 101 or a 403",
                    must_cover=["redirect-connected", "redirect-refused"], step_budget=100000, kernel=["WebSocket.connect (redirect loop)"]),
+        Obligation("H-again", h_again, [dict(bad=b, between=w) for b in ("403", "accept", "upgrade", "eof", "redirect") for w in ("nothing", "close", "shutdown")],
+                   bounds="one object: successful connect(), then nothing / close() / shutdown(), then a second connect() whose handshake is refused in 5 ways "
+                          "(403, accept for another key, wrong Upgrade, truncated head + end of stream, redirect beyond the limit), then send()",
+                   must_cover=["again"], kernel=["WebSocket.connect (cleanup path)", "handshake", "WebSocket.send"]),
         Obligation("H-fault", h_fault, [dict(kind="eof"), dict(kind="silence")], bounds="valid 101 response truncated at EVERY byte position, followed by "
                    "end of stream or by silence (socket timeout)", must_cover=["fault"], step_budget=100000,
                    kernel=["WebSocket.connect (failure cleanup)", "_socket.recv_line", "_socket.recv"]),
